@@ -514,6 +514,157 @@ def run_d(case: dict) -> Outcome:
     return Outcome(None, None, d > 0, tuple(sorted(classes)))
 
 
+# ---------------------------------------------------------------------------
+# family E: the receiver around the buffer - what add() returns is what the receiver acts on
+
+
+@st.composite
+def case_e(draw, tier="quick"):
+    """Arrivals for a real video RTCRtpReceiver (capacity 128, prefetch 0): frames of 1-6 packets sent in order, then each
+    packet lost, duplicated, held back, and now and then a forward jump beyond the capacity (which makes the buffer throw
+    packets away, sometimes while a complete frame sits right behind them)."""
+    base = draw(st.sampled_from([0, 1000, 65400, 65535 - 130]))
+    ts = draw(st.sampled_from([0, 90000, 2**32 - 9000]))
+    seq = base
+    sent = []
+    for f in range(draw(st.integers(20, 90 if tier == "quick" else 200))):
+        for i in range(draw(st.sampled_from([1, 1, 2, 3, 6]))):
+            sent.append([seq & 0xFFFF, ts & 0xFFFFFFFF])
+            seq += 1
+        ts += 3000
+        if draw(st.integers(0, 14)) == 0:
+            seq += draw(st.sampled_from([120, 127, 128, 129, 200, 400]))  # the sender's numbering jumps (or a long outage)
+    arrivals = []
+    held: list = []
+    for pkt in sent:
+        fate = draw(st.sampled_from(["ok"] * 8 + ["lose", "lose", "dup", "hold"]))
+        if fate == "lose":
+            continue
+        if fate == "hold":
+            held.append((len(arrivals) + draw(st.sampled_from([2, 5, 20, 140])), pkt))
+            continue
+        arrivals.append(pkt)
+        if fate == "dup":
+            arrivals.append(pkt)
+        due = [h for h in held if h[0] <= len(arrivals)]
+        for h in due:
+            held.remove(h)
+            arrivals.append(h[1])
+    return {"arrivals": arrivals + [h[1] for h in held]}
+
+
+def run_e(case: dict) -> Outcome:
+    import asyncio
+    import queue
+
+    import aiortc.rtcrtpreceiver as RX
+    from aiortc.rtcdtlstransport import RTCCertificate, RTCDtlsTransport
+    from aiortc.rtcrtpparameters import RTCRtpCodecParameters, RTCRtpDecodingParameters, RTCRtpReceiveParameters
+    from aiortc.rtp import RtcpPacket, RtcpPsfbPacket
+    from vlib import vloop
+    from vlib.patches import RandomShim, patched, virtual_clocks
+
+    global _CERT_E
+    try:
+        cert = _CERT_E
+    except NameError:
+        cert = _CERT_E = RTCCertificate.generateCertificate()
+    result: dict = {"problem": None, "classes": set()}
+
+    class Ice:
+        role = "controlling"
+
+        async def _send(self, data: bytes) -> None:
+            pass
+
+    def worker(loop, input_q, output_q):
+        while input_q.get() is not None:
+            pass
+
+    async def main(loop):
+        transport = RTCDtlsTransport(Ice(), [cert])
+        rtcp_out: list = []
+
+        async def send_rtp(data: bytes) -> None:
+            rtcp_out.append(data)
+
+        transport._send_rtp = send_rtp  # type: ignore[method-assign]
+        rcv = RX.RTCRtpReceiver("video", transport)
+        rcv._track = RX.RemoteStreamTrack(kind="video")
+        rcv._set_rtcp_ssrc(0x5151)
+        handed: list = []
+
+        class RecQueue(queue.Queue):
+            def put(self, item, *a, **kw):  # type: ignore[override]
+                if item is not None:
+                    handed.append(bytes(item[1].data))
+                return super().put(item, *a, **kw)
+
+        rcv._RTCRtpReceiver__decoder_queue = RecQueue()
+        await rcv.receive(RTCRtpReceiveParameters(
+            codecs=[RTCRtpCodecParameters(mimeType="video/VP8", clockRate=90000, payloadType=96)],
+            muxId="0", encodings=[RTCRtpDecodingParameters(ssrc=77, payloadType=96)]))
+        jb = rcv._RTCRtpReceiver__jitter_buffer
+        returned: list = []
+        orig_add = jb.add
+
+        def add(packet):
+            r = orig_add(packet)
+            returned.append(r)
+            return r
+
+        jb.add = add  # type: ignore[method-assign]
+        try:
+            for n, (seq, ts) in enumerate(case.get("arrivals", [])):
+                pkt = RtpPacket(payload_type=96, sequence_number=seq & 0xFFFF, timestamp=ts & 0xFFFFFFFF, ssrc=77,
+                                payload=b"\x10" + token(n, 9))
+                before_rtcp, before_handed, before_ret = len(rtcp_out), len(handed), len(returned)
+                try:
+                    await rcv._handle_rtp_packet(pkt, arrival_time_ms=int(loop.wall() * 1000) + n)
+                except Exception as exc:
+                    result["problem"] = (f"arrival {n}: _handle_rtp_packet raised {exc!r}", "receiver-raised:" + type(exc).__name__)
+                    return
+                plis = 0
+                for raw in rtcp_out[before_rtcp:]:
+                    for rp in RtcpPacket.parse(raw):
+                        if isinstance(rp, RtcpPsfbPacket) and rp.fmt == 1:
+                            plis += 1
+                            if rp.media_ssrc != 77:
+                                result["problem"] = (f"arrival {n}: PLI names media ssrc {rp.media_ssrc}, the stream is 77", "receiver-pli-ssrc")
+                                return
+                new = returned[before_ret:]
+                if len(new) != 1:
+                    result["classes"].add("not-added")  # (dropped before the buffer: nothing to compare)
+                    continue
+                flag, frame = new[0]
+                if flag:
+                    result["classes"].add("pli" + ("+frame" if frame is not None else ""))
+                if bool(flag) != (plis > 0):
+                    result["problem"] = (f"arrival {n} (seq {seq}): the jitter buffer {'asked' if flag else 'did not ask'} for a key frame "
+                                         f"({'and returned a frame' if frame is not None else 'no frame'}), the receiver sent {plis} PLI", "receiver-pli")
+                    return
+                got = handed[before_handed:]
+                if (frame is None and got) or (frame is not None and got != [bytes(frame.data)]):
+                    result["problem"] = (f"arrival {n}: the buffer returned {'a frame' if frame is not None else 'no frame'}, the decoder "
+                                         f"was handed {len(got)} frame(s)", "receiver-frame-forwarding")
+                    return
+                if frame is not None:
+                    result["classes"].add("frame")
+        finally:
+            await rcv.stop()
+
+    now = lambda: asyncio.get_event_loop().wall()  # noqa: E731
+    try:
+        with virtual_clocks(now, sctp=False), patched(RX, decoder_worker=worker, random=RandomShim([0.5])):
+            vloop.run_sim(main, max_iterations=400000, cpu_seconds=120)
+    except vloop.SimAbort as exc:
+        return Outcome(f"simulation aborted: {exc!r}", "sim-abort:" + type(exc).__name__, True, tuple(sorted(result["classes"])))
+    cl = tuple(sorted(result["classes"]))
+    if result["problem"]:
+        return Outcome(result["problem"][0], result["problem"][1], True, cl)
+    return Outcome(None, None, "pli" in cl or "pli+frame" in cl, cl)
+
+
 CHECK = Check(
     prop="C10",
     level="exploration",
@@ -536,6 +687,7 @@ CHECK = Check(
         Family("bounded-lateness", run_b, lambda tier: case_b(tier), quick=5000, thorough=250000),
         Family("complete", run_c, lambda tier: case_c(tier), quick=4000, thorough=200000),
         Family("displaced", run_d, lambda tier: case_d(tier), quick=3000, thorough=150000),
+        Family("receiver", run_e, lambda tier: case_e(tier), quick=1500, thorough=40000, min_shard=20),
     ],
     floor=1000,
     assumptions=["the PLI clause reads the anchored ring JitterBuffer._packets to see which packets left the buffer"],
